@@ -80,4 +80,6 @@ def check(rep, F, tier, replay=None):
                     if not own:
                         rep.violation("BREAK-def", "%s|foreign-len" % F.key(fid.split("::{closure")[0]), "%s hands is_break_tag a length that is not the result of its own array() / map() call (origins %s): the Break test judges the wrong container" % (F.key(fid.split("::{closure")[0]), sorted(o)[:4]), {})
             rep.floor("Break tests in collection readers", 40, n_b)
+    from ruleutil import close_len_rule
+    close_len_rule(rep, F)
     return rep.finish(EXPLANATION, ASSUMPTIONS, TRUSTED)
